@@ -96,3 +96,53 @@ UNITS = [
        # x_k with k strictly increasing: a name is never handed out twice
        ensures=["result == 'x_' + str(old(self.aux_var_num))", "self.aux_var_num == old(self.aux_var_num) + 1"]),
 ]
+
+
+# ---------------------------------------------------------------------------------------------------------------
+# Annotations.CheckAnnotatedObjects: a normal return means every predicate named by a plan / shape annotation exists
+# (has a rule, or is grounded, or is made); the only way out otherwise is the compiler error raised by
+# RaiseCompilerError (assumed contract: it always raises).
+CHECKED = "{'@Limit', '@OrderBy', '@NoInject', '@CompileAsTvf', '@With', '@NoWith', '@CompileAsUdf'}"
+ALLP = "(heads() | set(self.annotations['@Ground']) | set(self.annotations['@Make']))"
+
+
+def gen_cao(tier, mod):
+  import itertools
+  kinds = ['@Limit', '@OrderBy', '@NoInject', '@CompileAsTvf', '@With', '@NoWith', '@CompileAsUdf', '@Ground', '@Make']
+  names = ['P', 'Q', 'Nope']
+  for heads in (['P'], ['P', 'Q'], []):
+    rules = [{'head': {'predicate_name': h}, 'full_text': h} for h in heads]
+    for k in range(0, 3):
+      for combo in itertools.combinations([(a, n) for a in kinds for n in names], k):
+        ann = {a: {} for a in ['@Limit', '@OrderBy', '@NoInject', '@CompileAsTvf', '@With', '@NoWith', '@CompileAsUdf',
+                               '@Ground', '@Make', '@Engine']}
+        for a, n in combo:
+          ann[a][n] = {'__rule_text': '%s(%s)' % (a, n)}
+        obj = mk.annotations(mod)
+        obj.annotations = ann
+        yield {'args': [rules], 'self': obj, 'env': {'heads': (lambda heads=heads: set(heads))},
+               'show': {'heads': heads, 'annotations': [list(c) for c in combo]}}
+
+
+UNITS += [
+  unit(U, 'RaiseCompilerError', external=True, params=['message', 'context'], types={'message': 'str', 'context': 'val'},
+       fields={}, requires=[], ensures=[], raises={'RuleCompileException': 'True'}),
+  unit(U, 'Annotations.CheckAnnotatedObjects', props=['C19', 'C08'], params=['rules'], types={'rules': 'list[RuleT]'},
+       fields=ANN, modifies=[], exceptions=['RuleCompileException'],
+       abstract_exprs={"{rule['head']['predicate_name'] for rule in rules}": ('heads', [], 'set[str]'),
+                       "self.annotations[annotation_name][annotated_predicate]['__rule_text']": ('rule_text', [], 'val')},
+       ufs={'heads': ([], 'set[str]'), 'rule_text': ([], 'val')},
+       calls={'color.Warn': 'color.Format!ext', 'RaiseCompilerError': 'RaiseCompilerError'},
+       locals={'all_predicates': 'set[str]'},
+       requires=["'@Ground' in self.annotations", "'@Make' in self.annotations"],
+       ensures=["all(all(p in ALLP for p in self.annotations[a]) for a in self.annotations if a in CHECKED)"
+                .replace('ALLP', ALLP).replace('CHECKED', CHECKED)],
+       may_raise={'RuleCompileException':
+                  "not all(all(p in ALLP for p in self.annotations[a]) for a in self.annotations if a in CHECKED)"
+                  .replace('ALLP', ALLP).replace('CHECKED', CHECKED)},
+       loops={0: {'inv': ["all(implies(a in CHECKED, all(p in all_predicates for p in self.annotations[a])) "
+                          "for a in _visited0)".replace('CHECKED', CHECKED),
+                          "all_predicates == ALLP".replace('ALLP', ALLP)]},
+              1: {'inv': ["all(p in all_predicates for p in _visited1)", "all_predicates == ALLP".replace('ALLP', ALLP)]}},
+       native=lambda tier, mod: gen_cao(tier, mod)),
+]
